@@ -470,6 +470,12 @@ def run_all(rep, db, tier, props, handlers=('start_timeout', 'start_new_view', '
         if o['status'] == 'inconclusive':
             rep.add(F.Obligation(name, 'inconclusive', o.get('detail', ''))); continue
         rep.nontrivial += o.get('nontrivial', 0)
+        for v in list(mine):
+            if ':state-invariant-broken' in v['key']:
+                # the pre-state invariant is this check's own induction hypothesis, not the property: a step that leaves it means the
+                # one-step verdicts no longer compose (the reachable states are more than the harness explores) — nothing is claimed
+                rep.add(F.Obligation('inductiveness of the assumed pre-state invariant (' + v['key'] + ')', 'inconclusive', v['text'] + ' | witness: ' + v['witness']))
+                mine.remove(v)
         for v in mine:
             path = None; repro = None
             from props import replica_replay
